@@ -6,6 +6,7 @@ The dependence relation over-approximates, so an *untainted* verdict is definite
 discharged by width, guarded on every path, or listed in the reasoned allow-table below.
 """
 from rulebase import *
+from rules_reader import iter_base
 import absint
 from absint import INT_BITS
 from rules_writer import no_anchor, struct_field
@@ -577,6 +578,75 @@ def r_rec_bound(ctx):
     return obs
 
 
+MIN_DIRECTORY_LEVELS = 4   # root + three nested leaf levels: what the repaired tree admits (F7 chose the bound; the spec gives none)
+
+
+def r_depth_admits(ctx):
+    """R-WALK-DEPTH: the depth budget of the recursive directory walker admits at least MIN_DIRECTORY_LEVELS directory levels from every external entry
+    (start value, step and limit are read off the code: levels = ⌊(limit − start)/step⌋ + 1)"""
+    obs = []
+    ws = ctx.walkers()
+    if not ws:
+        return no_anchor("R-WALK-DEPTH", "recursive directory walker")
+    for f in ws:
+        fa = ctx.fa(f)
+        fn = f["path"]
+        budget = None
+        for p in fa.paths:
+            for e in p.events:
+                if e.kind == "call" and e.d["fn"] == fn:
+                    for i, a in enumerate(e.d["args"]):
+                        if i >= len(fa.param_names):
+                            continue
+                        pa = V("param:" + fa.param_names[i])
+                        d = aff_sub(affine(unmut(a)), (0, {pa: 1}))
+                        if not d[1] and d[0] > 0:
+                            K = guard_le_const(p, e.seq, pa)
+                            if K is not None:
+                                budget = (i, d[0], K)
+        if budget is None:
+            obs.append(Ob("R-WALK-DEPTH", fn, "depth budget", False, "no constant-step, constant-limit depth parameter found", rel(f["loc"])))
+            continue
+        idx, step, K = budget
+        callers = 0
+        for g in ctx.user_fns():
+            if g["path"] == fn:
+                continue
+            ga = None
+            for c in calls(g["body"]):
+                if c["fn"] == fn:
+                    ga = ga or ctx.fa(g)
+            if ga is None:
+                continue
+            for p in ga.paths:
+                for e in p.events:
+                    if e.kind == "call" and e.d["fn"] == fn and idx < len(e.d["args"]):
+                        callers += 1
+                        a0 = affine(unmut(e.d["args"][idx]))
+                        if a0[1]:
+                            obs.append(Ob("R-WALK-DEPTH", g["path"], "walk starts at a constant depth", False, "initial depth = %s" % aff_str(a0), e.loc()))
+                            continue
+                        levels = (K - a0[0]) // step + 1 if K >= a0[0] else 0
+                        obs.append(Ob("R-WALK-DEPTH", g["path"], "the depth budget admits ≥ %d directory levels" % MIN_DIRECTORY_LEVELS, levels >= MIN_DIRECTORY_LEVELS,
+                                      "start %d, step %d, recursion allowed while depth ≤ %d ⇒ %d levels" % (a0[0], step, K, levels), e.loc(), {"levels": levels}))
+        if callers == 0:
+            obs.append(Ob("R-WALK-DEPTH", fn, "external entry", False, "no non-recursive caller of the walker found", rel(f["loc"])))
+    return obs
+
+
+def r_depth_twins(ctx):
+    """R-WALK-DEPTH (twins): every entry point of the directory walk (sync and async) admits the same number of directory levels"""
+    obs = [o for o in r_depth_admits(ctx)]
+    lv = {}
+    for o in obs:
+        if o.values and "levels" in o.values:
+            lv[o.fn] = o.values["levels"]
+    out = [o for o in obs if not o.ok and "admits" not in o.site]
+    out.append(Ob("R-WALK-DEPTH", "<crate>", "all entry points of the directory walk admit the same depth", len(set(lv.values())) == 1,
+                  "; ".join("%s: %d levels" % (k.rpartition("::")[2], v) for k, v in sorted(lv.items())) or "no entry point analysed"))
+    return out
+
+
 def _is_limit(d, pa):
     """the decision establishes `pa` > constant (in either operand order)"""
     for f in decision_facts(d):
@@ -696,10 +766,78 @@ def r_leaf_skip_and_filter(ctx):
                               "facts about the leaf's first id on the skipping path: %s" % (", ".join("tile_id %s %s" % (x[0], tstr(x[2])[:60]) for x in rels) or "none"), where))
                 dep_start = any(is_call_to(t_, lambda s: s.endswith("::start_bound")) for x in rels for t_ in subterms(x[2]))
                 obs.append(Ob("R-LEAF-SKIP", fn, "skip does not look at the range start", not dep_start, "condition mentions start_bound: %s" % dep_start, where))
+        # exactness: an id of a run is passed over (iteration of the id loop without an insert) only because the filter rejects it
+        for p in fa.paths:
+            if p.exit == "err":
+                continue
+            for e in p.events:
+                if not (e.kind == "loop" and e.d["what"] == "enter" and e.d.get("iter") is not None and is_call_to(iter_base(unmut(e.d["iter"])), lambda s: s.endswith("::tile_id_range"))):
+                    continue
+                lid = e.d["lid"]
+                ex = [x for x in p.events if x.kind == "loop" and x.d["what"] == "exit" and x.d["lid"] == lid and x.seq > e.seq]
+                if not ex:
+                    continue
+                ex = ex[0]
+                if any(x.kind == "call" and x.d["fn"].endswith("HashMap::<K, V, S, A>::insert") and e.seq < x.seq < ex.seq for x in p.events):
+                    continue
+                d = rejects_because(p, ex.seq, lambda fct: fct[0] == "bool" and fct[2] is False and is_call_to(fct[1], lambda s: s.endswith("::contains")) and fct[1][2] and unmut(fct[1][2][0]) == fr, after=e.seq)
+                d2 = rejects_because(p, ex.seq, lambda fct: fct[0] == "rel" and fct[1] in (">", "<") and (_is_inclusive_end(fct[3], rfn, fr) if fct[1] == ">" else _is_inclusive_end(fct[2], rfn, fr)), after=e.seq)
+                obs.append(Ob("R-FILTER-GUARD", fn, "an id of a run is passed over only when the filter rejects it", d is not None or d2 is not None,
+                              "skip justified by the range test" if (d or d2) else "an iteration of the id loop without insert that `!filter_range.contains(&id)` does not account for", ex.loc()))
         if n_ins == 0:
             obs.append(Ob("R-FILTER-GUARD", fn, "insert site", False, "walker never inserts", rel(f["loc"])))
         # a skip that exists nowhere is fine for correctness (just slower): no obligation
     return obs
+
+
+def _early_exits(ctx, rule, filtered):
+    """`break` exits of the walker's loops.  filtered=True: those taken only for ids the range filter rejected (matter for partial opens only);
+    filtered=False: all others (matter for every open).  Admissible reason in both cases: an id strictly beyond the inclusive range end."""
+    obs = []
+    ws, rfs = walker_and_range_fns(ctx)
+    if not ws:
+        return no_anchor(rule, "directory walker")
+    rfn = set(f["path"] for f in rfs)
+    for f in ws:
+        fa = ctx.fa(f)
+        fn = f["path"]
+        fr = V("param:filter_range")
+        n_break = 0
+        for p in fa.paths:
+            for e in p.events:
+                if e.kind == "loop" and e.d["what"] == "exit" and e.d.get("how") == "break":
+                    good = False
+                    by_filter = False
+                    for fct, d in path_facts(p, e.seq):
+                        if not d.loops:
+                            continue
+                        if fct[0] == "bool" and fct[2] is False and is_call_to(fct[1], lambda s: s.endswith("::contains")) and fct[1][2] and unmut(fct[1][2][0]) == fr:
+                            by_filter = True
+                        if fct[0] == "rel" and fct[1] in ("<", "<=", ">", ">="):
+                            op, l, r = fct[1], fct[2], fct[3]
+                            if op in ("<", "<="):
+                                op, l, r = {"<": ">", "<=": ">="}[op], r, l
+                            if op == ">" and _is_inclusive_end(r, rfn, fr):
+                                good = True
+                    if by_filter != filtered:
+                        continue
+                    n_break += 1
+                    obs.append(Ob(rule, fn, "a directory/run loop is left early only beyond the inclusive range end", good,
+                                  "`break` out of loop %s without `id > inclusive end` on the path" % e.d.get("lid") if not good else "break justified by id > inclusive end", e.loc()))
+        obs.append(Ob(rule, fn, "early loop exits%s" % (" (filtered ids)" if filtered else ""), True, "%d `break` exits examined" % n_break, rel(f["loc"])))
+    return obs
+
+
+def r_walk_complete(ctx):
+    """R-WALK (completeness): the walk over a directory's entries and over a run's ids is never cut short (`break`), except once an id is strictly
+    beyond the inclusive range end — ids ascend, so nothing later can be in range"""
+    return _early_exits(ctx, "R-WALK", False)
+
+
+def r_filter_complete(ctx):
+    """R-FILTER-GUARD (completeness): an id the filter rejects is skipped (`continue`), it does not end the run/directory loop — unless it is beyond the
+    inclusive end"""
+    return _early_exits(ctx, "R-FILTER-GUARD", True)
 
 
 def r_partial_same(ctx):
@@ -771,8 +909,9 @@ def r_zxy_guard(ctx):
             z, x, y = [unmut(a) for a in e.d["args"][:3]]
             facts = _coordinate_facts(ctx, p, e.seq)
             zK = facts.get(("le", z))
-            ok_z = zK is not None and zK == maxz
-            obs.append(Ob("R-ZXY-GUARD", fn, "conversion only for z ≤ 31", ok_z, "established bound on z before the conversion: %s (must be exactly %d: larger overflows, smaller loses valid tiles)" % (zK, maxz), e.loc()))
+            ok_z = zK is not None and zK <= maxz
+            obs.append(Ob("R-ZXY-GUARD", fn, "conversion only for z ≤ 31", ok_z, "established bound on z before the conversion: %s (must be at most %d: a larger zoom overflows the 64-bit id space)" % (zK, maxz), e.loc()))
+            obs.append(Ob("R-ZXY-GUARD", fn, "every zoom 0–31 is converted", zK is not None and zK >= maxz, "established bound on z before the conversion: %s (a bound below %d loses valid tiles)" % (zK, maxz), e.loc(), only=("C07",)))
             for nm, c in (("x", x), ("y", y)):
                 ok = ("grid", c, z) in facts
                 obs.append(Ob("R-ZXY-GUARD", fn, "conversion only for %s < 2^z" % nm, ok, "grid test on %s found: %s" % (nm, ok), e.loc()))
@@ -780,7 +919,70 @@ def r_zxy_guard(ctx):
             obs.append(Ob("R-ZXY-GUARD", fn, "the grid bound 1 << z is only evaluated for z < 64", ok_shift, "shift evaluated under its own zoom guard: %s" % ok_shift, e.loc()))
         if n == 0:
             obs.append(Ob("R-ZXY-GUARD", fn, "conversion path", False, "no path converts coordinates", rel(f["loc"])))
+            continue
+        # exactness: coordinates are refused only for one of the three reasons (zoom beyond 31, x or y outside the grid), whatever the form of the test
+        coords = set()
+        for p in fa.paths:
+            for e in p.events:
+                if e.kind == "call" and e.d["fn"] in idfn:
+                    coords.add(tuple(_strip_cast(unmut(a)) for a in e.d["args"][:3]))
+        for p in fa.paths:
+            if any(e.kind == "call" and e.d["fn"] in idfn for e in p.events) or p.exit == "err" and isinstance(p.value, tuple) and p.value and p.value[0] == "errprop":
+                continue
+            why = None
+            for d in p.decisions():
+                if d.d["how"] != "if" or d.d.get("folded"):
+                    continue
+                alts = _expanded_alternatives(ctx, unmut(d.d["cond"]), d.d["outcome"] is True, {}, 0)
+                if alts and all(any(_is_zxy_reason(a, pol, coords, maxz) for a, pol in alt) for alt in alts):
+                    why = d
+            ex = [e for e in p.events if e.kind == "exit"]
+            obs.append(Ob("R-ZXY-GUARD", fn, "coordinates are refused only for z > 31 or x/y outside the grid", why is not None,
+                          "refusal justified by the validity test" if why is not None else "a `no tile` exit that the validity of z/x/y does not account for", ex[-1].loc() if ex else rel(f["loc"]), only=("C07",)))
     return obs
+
+
+def _expanded_alternatives(ctx, c, truth, subst, depth):
+    """DNF of `c == truth` with calls to one-path local bool predicates replaced by their bodies; list of alternatives of (atom, polarity)"""
+    c = _subst(unmut(c), subst)
+    if c[0] == "un" and c[1] == "!":
+        return _expanded_alternatives(ctx, c[2], not truth, {}, depth)
+    if c[0] == "bin" and c[1] in ("&&", "||"):
+        conj = (c[1] == "&&") == truth
+        l = _expanded_alternatives(ctx, c[2], truth, {}, depth)
+        r = _expanded_alternatives(ctx, c[3], truth, {}, depth)
+        return ([a + b for a in l for b in r] if conj else l + r)[:64]
+    if c[0] == "call" and c[1] in ctx.facts.fns and depth < 2:
+        callee = ctx.fn(c[1])
+        if callee is not None and callee["ret"] == "bool":
+            cfa = ctx.fa(callee)
+            if len(cfa.paths) == 1:
+                sub = {V("param:" + n): a for n, a in zip(cfa.param_names, c[2])}
+                return _expanded_alternatives(ctx, unmut(cfa.paths[0].value), truth, sub, depth + 1)
+    return [[(c, truth)]]
+
+
+def _is_zxy_reason(atom, pol, coords, maxz):
+    if atom[0] != "bin" or atom[1] not in ("<", "<=", ">", ">="):
+        return False
+    op = atom[1]
+    if not pol:
+        op = {"<": ">=", "<=": ">", ">": "<=", ">=": "<"}[op]
+    l, r = _strip_cast(atom[2]), _strip_cast(atom[3])
+    if op in ("<", "<="):
+        op, l, r = {"<": ">", "<=": ">="}[op], r, l
+    # now  l > r  or  l >= r
+    for (z, x, y) in coords:
+        if l == z and r[0] == "c" and ((op == ">" and r[1] == maxz) or (op == ">=" and r[1] == maxz + 1)):
+            return True
+        if l in (x, y) and op == ">=":
+            big = atom[3] if _strip_cast(atom[2]) == l else atom[2]
+            big = unmut(big)
+            if big[0] == "bin" and big[1] == "<<" and big[2] == C(1) and _strip_cast(big[3]) == z:
+                return True
+            if is_call_to(big, lambda s_: s_.endswith("::pow")) and big[2][0] == C(2) and _strip_cast(big[2][1]) == z:
+                return True
+    return False
 
 
 def _coordinate_facts(ctx, p, upto, subst=None, depth=0):
@@ -983,7 +1185,7 @@ def _strict_block_test(fa, p, e, tid):
             a = affine(acc)
             pw = [k for k in a[1] if is_call_to(k, lambda s: s.endswith("::pow")) and k[2][0] == C(4) and _strip_cast(k[2][1]) == i]
             carried = [k for k in a[1] if k[0] == "v" and k[1].startswith("loop")]
-            if len(pw) == 1 and len(carried) == 1 and a[0] == 0 and len(a[1]) == 2:
+            if len(pw) == 1 and len(carried) == 1 and a[0] == 0 and len(a[1]) == 2 and a[1][pw[0]] == 1 and a[1][carried[0]] == 1:
                 srcs = set(unmut(s) for s in fa.havoc_src.get(carried[0], ()))
                 if C(1) in srcs and all(s == C(1) or aff_eq(affine(s), a) for s in srcs):
                     return True
@@ -1019,6 +1221,8 @@ def r_hilbert_call(ctx):
             base = [k for k in av[1] if k not in hterm]
             ok_base = av[0] == 1 and len(hterm) == 1 and av[1][hterm[0]] == 1 and len(base) == 1 and av[1][base[0]] == 1 and _is_pow4_sum(base[0], P.get("z"))
             obs.append(Ob("R-HILBERT-CALL", f["path"], "id = 1 + Σ_{1≤i<z} 4^i + position", ok_base, "returns %s" % aff_str(av)[:160], rel(f["loc"])))
+            nc = absint.narrowing_casts(v)
+            obs.append(Ob("R-HILBERT-CALL", f["path"], "the id is not truncated on the way out", not nc, ("narrowing cast(s): %s" % ", ".join("%s as %s" % (c[3], c[1]) for c in nc)) if nc else "no narrowing cast in the returned id", hc[0].loc()))
     for f in dec:
         fa = ctx.fa(f)
         tid = V("param:tile_id")
@@ -1041,6 +1245,8 @@ def r_hilbert_call(ctx):
             r = unmut(hc[0].d["ret"])
             ok_t = tup is not None and tup[0] == "tup" and len(tup[1]) == 3 and tup[1][0] == z and _strip_cast(tup[1][1]) == ("proj", r, 0) and _strip_cast(tup[1][2]) == ("proj", r, 1) and z[0] == "call"
             obs.append(Ob("R-HILBERT-CALL", f["path"], "returns (z, x, y) in that order from the zoom search and the curve", ok_t, "returns %s" % tstr(tup)[:120], rel(f["loc"])))
+            nc = absint.narrowing_casts(v) + absint.narrowing_casts(a[0])
+            obs.append(Ob("R-HILBERT-CALL", f["path"], "neither the position nor the coordinates are truncated", not nc, ("narrowing cast(s): %s" % ", ".join("%s as %s" % (c[3], c[1]) for c in nc)) if nc else "no narrowing cast", hc[0].loc()))
     return obs
 
 
